@@ -41,7 +41,8 @@ def _ev(ev, t=0, ts=(), exc=False):
 
 
 def record_run(case):
-    """case: {n, raising, workers, branch: process|thread|seq, delays: {tid: ms}} -> trace record for ParProcTrace"""
+    """case: {n, raising, workers, branch: process|thread|seq, delays: {tid: ms}, iterable?: generator, entry?: legacy,
+    cancel_after?: k, second_loop?: bool} -> trace record for ParProcTrace"""
     import concurrent.futures as cf
     import tatsu.parproc.pmap as pmap_mod
     from tatsu.parproc import parproc
@@ -82,8 +83,34 @@ def record_run(case):
     err = None
     try:
         try:
-            for res in parproc(_work, payloads, raising, delays, parallel=branch != 'seq', max_workers=case['workers']):
+            source = (p for p in payloads) if case.get('iterable') == 'generator' else payloads     # any iterable of payloads
+            kw = {'parallel': branch != 'seq', 'max_workers': case['workers']}
+            if case.get('entry') == 'legacy':
+                from tatsu.parproc import parallel_proc
+                loop = parallel_proc(source, _work, raising, delays, **kw)
+            else:
+                loop = parproc(_work, source, raising, delays, **kw)
+            other = None
+            if case.get('second_loop'):
+                # another call of parproc() is alive at the same time (its events are not recorded): it is started first, advanced
+                # by one result, and cancelled by ITS consumer after this loop's first result - which must not concern this loop
+                saved_rec = (cf.ProcessPoolExecutor, cf.ThreadPoolExecutor, pmap_mod.as_completed)
+                cf.ProcessPoolExecutor, cf.ThreadPoolExecutor, pmap_mod.as_completed = real_ppe, real_tpe, real_asc
+                try:
+                    other = parproc(_work, [Payload(100 + t) for t in range(1, 5)], set(), {}, parallel=True, max_workers=2)
+                    other_first = next(other)
+                finally:
+                    cf.ProcessPoolExecutor, cf.ThreadPoolExecutor, pmap_mod.as_completed = saved_rec
+            nres = 0
+            for res in loop:
+                nres += 1
                 events.append(_ev('yield', t=res.payload.tid, exc=res.exception is not None))
+                if other is not None and nres == 1:
+                    other_first.stop.set()
+                    other.close()
+                if case.get('cancel_after') == nres:
+                    res.stop.set()                       # the stop event every Result carries
+                    events.append(_ev('cancel'))
                 if case.get('consumer_delay'):
                     time.sleep(case['consumer_delay'] / 1000.0)
             events.append(_ev('end'))
